@@ -96,8 +96,22 @@ static void* h_realloc(void* p, size_t size) {
   h->magic = MAGIC_DEAD; raw_free(h);
   return nh + 1;
 }
+/* decoys: an allocator triple that was installed earlier and has since been replaced must never be called again */
+static void h_decoy_free(void* p) { if (p) die("block handed to a free function that is no longer the installed one", p); }
+static void* h_decoy_malloc(size_t n) { (void)n; die("request sent to a malloc that is no longer the installed one", 0); return NULL; }
+static void* h_decoy_realloc(void* p, size_t n) { (void)n; die("request sent to a realloc that is no longer the installed one", p); return NULL; }
 void h_alloc_install(void) {
   const char* m = getenv("HALLOC");
+  if (m && !strncmp(m, "swap", 4)) {
+    /* HALLOC=swap1..swap4: before any item exists another triple is installed first that shares some hooks with the final one;
+       the final triple must be the one in force, whatever it has in common with its predecessor */
+    switch (m[4]) {
+      case '1': cbor_set_allocs(h_malloc, h_realloc, h_decoy_free); break;
+      case '2': cbor_set_allocs(h_decoy_malloc, h_realloc, h_free); break;
+      case '3': cbor_set_allocs(h_malloc, h_decoy_realloc, h_free); break;
+      default: cbor_set_allocs(h_decoy_malloc, h_decoy_realloc, h_decoy_free); break;
+    }
+  }
   if (m && !strcmp(m, "arena")) {
     arena_mode = 1;
     arenaA = mmap(NULL, ARENA_SIZE, PROT_READ | PROT_WRITE, MAP_PRIVATE | MAP_ANONYMOUS | MAP_NORESERVE, -1, 0);
